@@ -23,7 +23,25 @@ EXPLANATION = ("S2 theorems (loop invariant, feasibility of the returned points,
                "ties, values within 1e-9*scale), calculate_closest_points and the driver loop likewise; the oracle "
                "checks the real outputs against independent membership predicates, a verified distance bracket "
                "(witness pair + separating-plane lower bound from analytic support values) and exact ground truth")
-PARTIAL = {}
+PARTIAL = {
+    "SolverSpec (hypothesis of inv/feasible/exit_* /terminates)":
+        "the solver contract (min-norm point of the hull of the stored points, strictly positive weights exactly on "
+        "the reported feature set, 0xf only with v = 0) is assumed here; it is C18's theorem outside its named "
+        "degenerate bands (|b-a|^2 < eps^2, |n|^2 < eps^2, |sign_p| <= eps) and is not re-proved for joltSolver",
+    "feasible / exit_intersection (NonDeg)":
+        "BarySpec is proved for the C18 model of the three barycentric routines (joltBary_spec) only outside their "
+        "degenerate bands jnd2/jnd3/jnd4; inside the bands (final simplex with an edge shorter than eps, Gram "
+        "determinant below eps, zero volume) the returned points are covered by the run-time oracle only",
+    "exit_stall_accuracy":
+        "bound proved: d - dist <= max(eps*R, sqrt(eps)*diam(A-B)) in exact arithmetic; float rounding of the "
+        "termination tests (the reason the tolerance exists) is outside the model",
+    "terminates":
+        "proved for a total solver and tolerance != 0 (fuel exhaustion unreachable); the concrete iteration count "
+        "(<= 1000 support evaluations) is C19's explored part, not proved",
+    "sanity_check assert":
+        "modelled as assertFail in gjkFinish; every theorem assumes gjkDistance = ok, i.e. unreachability of that "
+        "assert is not proved separately (in exact arithmetic |sd|^2 - v_len_sq is 0 or |v|^2 <= max(tol^2, eps*max|Y|^2))",
+}
 ASSUMPTIONS = [
     "support mappings of the colliders satisfy the C03 contract (IsSupport) - hypothesis of every S2 theorem",
     "the simplex solver satisfies SolverSpec (min-norm point of the hull of the stored points, positive weights on "
@@ -878,6 +896,13 @@ def exact_margins(st):
         my = max(sum(fr(x) ** 2 for x in o["Y"][i]) for i in range(max(1, o["n"])))
         m["relY"] = abs(vlen - fr(EPS) * my) / max(vlen, fr(EPS) * my, Fraction(1, 10 ** 300))
     m["progress"] = abs(prev - vlen - fr(EPS) * prev) / max(prev, Fraction(1, 10 ** 300))
+    # the same margins relative to the scale of the simplex (DESIGN 3.1: a flip whose exact margin is below
+    # 1e-12*scale is a tie): |v|^2 near tol^2 / eps*max|Y|^2 / eps*prev is far below the solver's resolution
+    sc2 = fr(scale_of(ins)) ** 2
+    m["tol/scale"] = abs(vlen - tol) / sc2
+    if "relY" in m:
+        m["relY/scale"] = abs(vlen - fr(EPS) * my) / sc2
+    m["progress/scale"] = abs(prev - vlen - fr(EPS) * prev) / sc2 if prev < fr(1e300) else Fraction(1)
     return {k: float(v) for k, v in m.items()}
 
 
@@ -1017,6 +1042,16 @@ def arbitrate(st, r, mg, sc, tolv):
             return "feature-set"
     if pair <= {4, 5, 6} and mg["progress"] < 1e-9:
         return "progress"
+    # below the numerical resolution of the solver: the two |v|^2 agree within tolv*scale^2 (checked by the caller
+    # for equal exits) and the deciding test compares quantities that are < 1e-12*scale^2 apart
+    close = abs(o.get("vlen", 0.0) - r.get("vlen", 0.0)) <= 10 * tolv * sc * sc or o["state"] == 1 or r["state"] == 1
+    if close:
+        if pair & {2} and mg["tol/scale"] < 1e-12:
+            return "tol/scale"
+        if pair & {3} and mg.get("relY/scale", 1) < 1e-12:
+            return "relY/scale"
+        if pair <= {4, 5, 6} and mg["progress/scale"] < 1e-12:
+            return "progress/scale"
     return None
 
 
@@ -1141,7 +1176,9 @@ def compare_runs(ctx, runs, tag):
             for i, st in enumerate(steps):
                 dv = np.array([h2f(x) for x in dirs[3 * i:3 * i + 3]])
                 sc = scale_of(st["ins"])
-                if not np.all(np.abs(dv - st["ins"]["sd"]) <= 1e-8 * sc):
+                # the model's own state drifts from the recorded one by the solver's last bits per iteration
+                # (support points come from the trace): loose tolerance here, the step-wise tie is the exact one
+                if not np.all(np.abs(dv - st["ins"]["sd"]) <= 1e-6 * max(sc, float(np.max(np.abs(dv))))):
                     ctx.broke("correspondence", "gjk_distance_jolt search direction",
                               "iteration %d: impl %s model %s" % (i, st["ins"]["sd"].tolist(), dv.tolist()), seed)
                     break
@@ -1225,6 +1262,10 @@ def crafted_steps(ctx, rec):
     # tolerance test vlen <= tol_sq
     for vl in (1e-20, float(np.nextafter(1e-20, 1.0)), float(np.nextafter(1e-20, 0.0)), 0.0):
         mk(stub=(True, np.array([math.sqrt(vl), 0, 0]), vl, 0b01))
+    # the same test where it is the only one that can fire (tol^2 = 1/4 >> eps*max|Y|^2): `<=` vs `<` is observable
+    for vl in (0.25, float(np.nextafter(0.25, 1.0)), float(np.nextafter(0.25, 0.0))):
+        for bits in (0b01, 0b11):
+            mk(tol_sq=0.25, stub=(True, np.array([math.sqrt(vl), 0, 0]), vl, bits))
     # relative-to-Y test vlen <= EPS * max|Y|^2 ; Y0 = (2,0,0), new point (2,1,0): max|Y|^2 = 5 (both kept) or 4
     for bits, my in ((0b11, 5.0), (0b01, 4.0), (0b10, 5.0)):
         for vl in (EPS * my, float(np.nextafter(EPS * my, 1.0)), float(np.nextafter(EPS * my, 0.0))):
